@@ -89,6 +89,33 @@ Theorem C14_attach_unequal_sizes : forall s, (forall c, In c (live s) -> c < nex
 Proof. exact attach_unequal. Qed.
 Print Assumptions C14_attach_unequal_sizes.
 
+(* ---- HISTORIES of attach / detach / dup / free on a communicator (0) and its duplicate (1) ---------------------------------------------- *)
+(* D = any type of divisions.  hstep: HAttach c (Some d) = an attach that attaches (two new communicators; MPI_Comm_set_attr replaces the
+   attribute and its delete callback frees the pair attached before), HAttach c None = MPI_Comm_split_type reported nodes of unequal
+   size (one communicator created and freed, nothing else changes), HDetach c, HDup (copy callback), HFreeDup (delete callback).
+   in_force h c = the id-free specification: the last attach on c that attached, copied by dup, removed by detach / free.
+   For EVERY history the life cycle accepts: the division in force on each communicator is in_force; the live node communicators are
+   exactly the pairs realising the divisions in force, all distinct (what a replaced or detached division used is released) *)
+Theorem C14_attach_history : forall (D : Type) (h : list (hop D)) (s : hstate D), hrun D hinit h = Some s ->
+  (forall c, h_division D s c = in_force D h c) /\
+  NoDup (h_live D s) /\
+  (forall x, In x (h_live D s) <-> exists c a b d, h_attr D s c = Some (a, b, d) /\ (x = a \/ x = b)) /\
+  (forall c a b d, h_attr D s c = Some (a, b, d) -> a <> b /\ (c = 0 \/ c = 1 /\ h_dup D s = true)) /\
+  length (h_live D s) = 2 * (length (filter (fun c => match h_attr D s c with Some _ => true | None => false end) [0; 1])).
+Proof. exact attach_history. Qed.
+Print Assumptions C14_attach_history.
+
+(* the division in force is the LAST attached one, whatever was attached, detached, duplicated or freed before *)
+Theorem C14_last_attach_in_force : forall (D : Type) (h : list (hop D)) c d s,
+  hrun D hinit (h ++ [HAttach D c (Some d)]) = Some s -> h_division D s c = Some d.
+Proof. exact last_attach_in_force. Qed.
+Print Assumptions C14_last_attach_in_force.
+
+Theorem C14_history_no_leak : forall (D : Type) (h : list (hop D)) s,
+  hrun D hinit h = Some s -> h_attr D s 0 = None -> h_attr D s 1 = None -> h_live D s = [].
+Proof. exact history_no_leak. Qed.
+Print Assumptions C14_history_no_leak.
+
 (* ---- what the arrays hold: every flavour, every reading rank, every P = nn * ppn, every count and item type --------- *)
 Theorem C14_allgather_rank_order : forall nn ppn, 0 < ppn -> forall contrib f r, r < nn * ppn ->
   shmem_allgather (nn * ppn) (comms_explicit nn ppn) f contrib r = rank_order (nn * ppn) contrib.
@@ -358,6 +385,13 @@ Example C14_ex_allgather_sig :
   /\ shmem_allgather_sig 4 (comms_explicit 2 2) contrib (mk_sig 2 4) (mk_sig 2 8) 64 Window 3 = None.
 Proof. vm_compute. split; reflexivity. Qed.
 
+(* attach (2) ; attach (3) ; dup ; attach (1) on the original ; detach the duplicate: divisions in force 1 and none, 2 communicators alive *)
+Example C14_ex_history :
+  let h := [HAttach nat 0 (Some 2); HAttach nat 0 (Some 3); HDup; HAttach nat 0 (Some 1); HAttach nat 1 None; HDetach 1] in
+  option_map (fun s => (h_division nat s 0, h_division nat s 1, h_live nat s)) (hrun nat hinit h) = Some (Some 1, None, [7; 6])
+  /\ in_force nat [HAttach nat 0 (Some 2); HAttach nat 0 (Some 3); HDup] 1 = Some 3.
+Proof. vm_compute. split; reflexivity. Qed.
+
 Example C14_ex_dup_life :
   let s0 := mk_ls [] 0 None in
   let s1 := l_attach true true s0 in
@@ -533,3 +567,23 @@ Theorem C14_gen_allgather_sig : forall (snd rcv : sig) (k : nat) st rt cm ia ie,
   = (zn (sg_count (sig_times k snd)), st, zn (sg_count (sig_times k rcv)), rt, ie).
 Proof. exact gen_allgather_sig. Qed.
 Print Assumptions C14_gen_allgather_sig.
+
+(* the decisions of sc_mpi_comm_attach_node_comms as a whole (exactly one return statement in the source: unequal node sizes): which
+   communicators are created / freed, whether and on which communicator the attribute is set - there is no other path *)
+Theorem C14_gen_attach_decisions : forall ppn mx mn cm x1 x2 x3 x4 x5 x6 x7 x8 x9 x10 x11 x12 x13 x14 x15 x16 x17 x18,
+  attach_decisions ppn mx mn cm x1 x2 x3 x4 x5 x6 x7 x8 x9 x10 x11 x12 x13 x14 x15 x16 x17 x18 =
+  if ppn <? 1 then (if mx =? mn then (1, 0, 1, 0, 0, 1, 1, cm) else (1, 1, 0, 0, 0, 0, 0, 0)) else (0, 0, 0, 1, 1, 1, 1, cm).
+Proof. exact gen_attach_decisions. Qed.
+Print Assumptions C14_gen_attach_decisions.
+
+(* ... and they are the steps of the life cycle: every explicit attach and every split_type attach with equal node sizes attaches ITS
+   division to THIS communicator (so it is the one in force afterwards), the refused one changes no attribute *)
+Theorem C14_gen_attach_decisions_model : forall (D : Type) (d : D) (s : hstate D) c ppn mx mn cm x1 x2 x3 x4 x5 x6 x7 x8 x9 x10 x11 x12 x13 x14 x15 x16 x17 x18,
+  h_valid D s c = true ->
+  let '(st, fr, s1, s2, s3, al, sa, sc) := attach_decisions ppn mx mn cm x1 x2 x3 x4 x5 x6 x7 x8 x9 x10 x11 x12 x13 x14 x15 x16 x17 x18 in
+  exists s', hstep D s (HAttach D c (if attach_attaches ppn mx mn then Some d else None)) = Some s' /\
+  zn (h_next D s') = zn (h_next D s) + (st + s1 + s2 + s3) /\ st + s1 + s2 + s3 - fr = 2 * sa /\ al = sa /\
+  z2b sa = attach_attaches ppn mx mn /\ (z2b sa = true -> sc = cm /\ h_division D s' c = Some d) /\
+  (z2b sa = false -> h_attr D s' = h_attr D s).
+Proof. exact gen_attach_decisions_model. Qed.
+Print Assumptions C14_gen_attach_decisions_model.
